@@ -36,8 +36,30 @@ class Sub(ast.NodeTransformer):
         return node
 
 
+CLASS_SIGS = {}  # constructor name -> parameter names (without self); filled by translate()
+
+
+class KwNorm(ast.NodeTransformer):
+    """calls of constructors with a known signature are written in one normal form (all keywords, signature order), so
+    that positional and keyword spellings binding the same parameters read the same"""
+
+    def visit_Call(self, node):
+        self.generic_visit(node)
+        if isinstance(node.func, ast.Name) and node.func.id in CLASS_SIGS and not any(isinstance(a, ast.Starred) for a in node.args) \
+                and all(k.arg is not None for k in node.keywords):
+            params = CLASS_SIGS[node.func.id]
+            if len(node.args) <= len(params):
+                kws = {p_: a for p_, a in zip(params, node.args)}
+                for k in node.keywords:
+                    kws[k.arg] = k.value
+                order = [p_ for p_ in params if p_ in kws] + [k for k in kws if k not in params]
+                return ast.Call(func=node.func, args=[], keywords=[ast.keyword(arg=k, value=kws[k]) for k in order])
+        return node
+
+
 def canon(expr, env):
-    e = Sub(env).visit(copy.deepcopy(expr))
+    e = KwNorm().visit(Sub(env).visit(copy.deepcopy(expr)))
+    ast.fix_missing_locations(e)
     s = ast.unparse(e).replace("\n", " ")
     return s if len(s) <= MAXLEN else s[:MAXLEN] + "..."
 
@@ -54,8 +76,11 @@ def simple(expr):
 
 
 class Walker:
-    def __init__(self, sigs, cls, method):
+    def __init__(self, sigs, cls, method, helpers=None):
         self.sigs, self.cls, self.method = sigs, cls, method
+        self.helpers = helpers or {}  # name -> (FunctionDef, is_method): private methods of the class / module-level helpers
+        self.ret = None  # value returned by the helper being inlined
+        self.depth = 0
         self.sites = []
         self.counter = {}
         self.stores = []  # (target string, canonical value, position index)
@@ -86,8 +111,101 @@ class Walker:
         self.sites.append({"cls": self.cls, "method": self.method, "callee": callee, "idx": k, "bind": bind, "ret": targets, "pos": self.pos})
         return callee, k
 
+    def helper_of(self, call):
+        """FunctionDef of a private method `self.x(...)` / module-level helper `x(...)` defined in the same module"""
+        if not isinstance(call, ast.Call):
+            return None
+        f = call.func
+        if isinstance(f, ast.Attribute) and isinstance(f.value, ast.Name) and f.value.id == "self" and ("self." + f.attr) in self.helpers:
+            return self.helpers["self." + f.attr]
+        if isinstance(f, ast.Name) and f.id in self.helpers:
+            return self.helpers[f.id]
+        return None
+
+    def inline(self, call, env):
+        """walk the helper's body in place of the call (its library calls and stores are recorded as if written here);
+        returns the list of returned expressions (or None if the helper's shape is not understood)"""
+        fn, is_method = self.helper_of(call)
+        if self.depth >= 3 or any(isinstance(a, ast.Starred) for a in call.args) or any(k.arg is None for k in call.keywords):
+            return None
+        a = fn.args
+        params = [x.arg for x in a.posonlyargs + a.args]
+        if is_method:
+            params = params[1:]
+        defaults = dict(zip(params[len(params) - len(a.defaults):], a.defaults)) if a.defaults else {}
+        for x, d in zip(a.kwonlyargs, a.kw_defaults):
+            params.append(x.arg)
+            if d is not None:
+                defaults[x.arg] = d
+        if len(call.args) > len(params):
+            return None
+        env2 = {}
+        for name, arg in zip(params, call.args):
+            env2[name] = Sub(env).visit(copy.deepcopy(arg))
+        for kw in call.keywords:
+            if kw.arg not in params:
+                return None
+            env2[kw.arg] = Sub(env).visit(copy.deepcopy(kw.value))
+        for name in params:
+            if name not in env2:
+                if name not in defaults:
+                    return None
+                env2[name] = copy.deepcopy(defaults[name])
+        saved, self.ret = self.ret, None
+        self.depth += 1
+        try:
+            self.body(fn.body, env2)
+            out = self.ret
+        finally:
+            self.depth -= 1
+            self.ret = saved
+        return out
+
     def stmt(self, st, env):
         env = dict(env)
+        if self.depth > 0 and isinstance(st, ast.Return) and st.value is not None and self.helper_of(st.value) is None and not (
+            isinstance(st.value, ast.Call) and lib_call(st.value) is None and not simple(st.value)
+        ):
+            v = st.value
+            if lib_call(v):
+                c, k = self.record_call(v, env, ["<returned>"])
+                self.ret = [ast.Name(id=f"{c}[{k}]#all", ctx=ast.Load())]
+            elif isinstance(v, (ast.Tuple, ast.List)):
+                self.ret = [Sub(env).visit(copy.deepcopy(e)) for e in v.elts]
+            else:
+                self.ret = [Sub(env).visit(copy.deepcopy(v))]
+            return env
+        if isinstance(st, ast.Assign) and len(st.targets) == 1 and self.helper_of(st.value) is not None:
+            tgt = st.targets[0]
+            out = self.inline(st.value, env)
+            if out is not None:
+                if isinstance(tgt, (ast.Tuple, ast.List)):
+                    if len(out) == len(tgt.elts):
+                        for e, v in zip(tgt.elts, out):
+                            if isinstance(e, ast.Name):
+                                env[e.id] = v
+                        return env
+                    if len(out) == 1:
+                        for i, e in enumerate(tgt.elts):
+                            if isinstance(e, ast.Name):
+                                env[e.id] = ast.Name(id=f"{ast.unparse(out[0])}#{i}"[:MAXLEN], ctx=ast.Load())
+                        return env
+                elif isinstance(tgt, ast.Name):
+                    env[tgt.id] = out[0] if len(out) == 1 else ast.Tuple(elts=out, ctx=ast.Load())
+                    return env
+                elif isinstance(tgt, ast.Attribute) and ast.unparse(tgt).startswith(("self.result.", "self.run_params.")) and len(out) == 1:
+                    self.pos += 1
+                    self.stores.append((ast.unparse(tgt), canon(out[0], {}), self.pos))
+                    return env
+            # not understood: fall through to the opaque treatment below
+        if isinstance(st, ast.Expr) and self.helper_of(st.value) is not None:
+            if self.inline(st.value, env) is not None or True:
+                return env
+        if isinstance(st, ast.Return) and st.value is not None and self.helper_of(st.value) is not None:
+            out = self.inline(st.value, env)
+            if self.depth > 0 and out is not None:
+                self.ret = out
+            return env
         if isinstance(st, ast.Assign) and len(st.targets) == 1:
             tgt, val = st.targets[0], st.value
             callee = lib_call(val)
@@ -167,15 +285,45 @@ def lean_str(s):
 def translate(repo):
     fdir = os.path.join(repo, "src", "pyoma2", "functions")
     sigs = _sig(fdir)
+    CLASS_SIGS.clear()
+    sup = os.path.join(repo, "src", "pyoma2", "support", "sel_from_plot.py")
+    if os.path.exists(sup):
+        for c in ast.parse(open(sup).read()).body:
+            if isinstance(c, ast.ClassDef):
+                for m in c.body:
+                    if isinstance(m, ast.FunctionDef) and m.name == "__init__":
+                        CLASS_SIGS[c.name] = [x.arg for x in m.args.posonlyargs + m.args.args][1:] + [x.arg for x in m.args.kwonlyargs]
     sites, stores = [], []
     for mod in ALG:
         tree = ast.parse(open(os.path.join(repo, "src", "pyoma2", "algorithms", f"{mod}.py")).read())
+        classes = {c.name: c for c in tree.body if isinstance(c, ast.ClassDef)}
+        modfuncs = {f.name: (f, False) for f in tree.body if isinstance(f, ast.FunctionDef)}
+
+        def methods_of(cname, seen=()):
+            """own methods first, then those of base classes defined in the same module"""
+            out = {}
+            c = classes.get(cname)
+            if c is None or cname in seen:
+                return out
+            for b in c.bases:
+                bn = b.value.id if isinstance(b, ast.Subscript) and isinstance(b.value, ast.Name) else (b.id if isinstance(b, ast.Name) else None)
+                if bn:
+                    out.update(methods_of(bn, seen + (cname,)))
+            for m in c.body:
+                if isinstance(m, ast.FunctionDef):
+                    out[m.name] = m
+            return out
+
         for c in tree.body:
             if not isinstance(c, ast.ClassDef):
                 continue
+            helpers = dict(modfuncs)
+            for name, m in methods_of(c.name).items():
+                if name not in ("run", "mpe", "mpe_from_plot") and not (name.startswith("__") and name.endswith("__")) and not name.startswith("plot"):
+                    helpers["self." + name] = (m, True)
             for m in c.body:
                 if isinstance(m, ast.FunctionDef) and m.name in ("run", "mpe", "mpe_from_plot"):
-                    w = Walker(sigs, c.name, m.name)
+                    w = Walker(sigs, c.name, m.name, helpers)
                     w.body(m.body, {})
                     sites += w.sites
                     for (t, v, p) in w.stores:
